@@ -1,0 +1,285 @@
+//go:build verif
+
+// Contracts for package evaluator, read by the verification engine in /verif (twv).
+// Comments only; compiled only with the build tag "verif".
+package evaluator
+
+//@ nonnil field evaluator.Evaluator.ctx
+//@ nonnil values map[string]*object.Builtin
+//@ nonnil field object.Builtin.Fn
+
+// the shared singletons are what their names say (established by package initialisation)
+//@ globalinv NIL != nil && TRUE != nil && FALSE != nil && BREAK != nil && CONTINUE != nil && TRUE.Value && !FALSE.Value
+
+// truthiness as the language defines it: false, nil, 0, 0.0 and "" are falsy, everything else truthy
+//@ spec truthy(o object.Object) bool = ite(istype(o, *object.Bool), as(o, *object.Bool).Value,
+//@      ite(istype(o, *object.Int), as(o, *object.Int).Value != 0,
+//@      ite(istype(o, *object.Float), as(o, *object.Float).Value != 0.0,
+//@      ite(istype(o, *object.Str), as(o, *object.Str).Value != "",
+//@      ite(istype(o, *object.Nil), false, ite(o == nil, false, true))))))
+
+//@ func isTruthy
+//@   ensures result == truthy(obj)
+//@   modifies nothing
+
+//@ func isError
+//@   requires obj != nil
+//@   ensures result == istype(obj, *object.Error)
+//@   modifies nothing
+
+//@ func nativeBoolToBooleanObject
+//@   ensures result != nil && istype(result, *object.Bool) && as(result, *object.Bool).Value == input
+//@   ensures result == iface(ite(input, TRUE, FALSE))
+//@   modifies nothing
+
+//@ func hasBreakStmt
+//@   requires obj != nil
+//@   modifies nothing
+//@ func hasContinueStmt
+//@   requires obj != nil
+//@   modifies nothing
+//@ func hasControlStmt
+//@   requires obj != nil
+//@   modifies nothing
+
+//@ func hasCustomFunc
+//@   ensures result ==> customFunc != nil
+//@   ensures result && t == object.STR_OBJ ==> customFunc.Str[funcName].fn != 0
+//@   ensures result && t == object.ARR_OBJ ==> customFunc.Arr[funcName].fn != 0
+//@   ensures result && t == object.INT_OBJ ==> customFunc.Int[funcName].fn != 0
+//@   ensures result && t == object.FLOAT_OBJ ==> customFunc.Float[funcName].fn != 0
+//@   ensures result && t == object.BOOL_OBJ ==> customFunc.Bool[funcName].fn != 0
+//@   modifies nothing
+
+// built-in functions: pure, never return (nil, nil)
+//@ family object.BuiltinFunction.call(fn, c, receiver, args)
+//@   requires fn.fn != 0 && receiver != nil
+//@   ensures result1 == nil ==> result0 != nil
+//@   modifies nothing
+
+// user-supplied custom functions are assumed not to touch Textwire's state
+//@ family config.StrCustomFunc.call(fn, s, args)
+//@   modifies nothing
+//@ family config.ArrayCustomFunc.call(fn, a, args)
+//@   modifies nothing
+//@ family config.IntCustomFunc.call(fn, i, args)
+//@   modifies nothing
+//@ family config.FloatCustomFunc.call(fn, f, args)
+//@   modifies nothing
+//@ family config.BoolCustomFunc.call(fn, b, args)
+//@   modifies nothing
+
+//@ func New
+//@   requires ctx != nil
+//@   ensures fresh(result) && result.ctx == ctx
+//@   modifies nothing
+
+//@ func (e *Evaluator) newError
+//@   requires node != nil
+//@   ensures result != nil && fresh(result)
+//@   modifies nothing
+
+//@ func (e *Evaluator) Eval
+//@   requires node != nil && WFNode(node) && env != nil
+//@   use wfExpressionStmt(as(node, *ast.ExpressionStmt))
+//@   use wfInfixExp(as(node, *ast.InfixExp))
+//@   ensures result != nil
+//@   modifies contents(env.store)
+
+//@ func (e *Evaluator) evalProgram
+//@   requires prog != nil && WFNode(iface(prog)) && env != nil
+//@   use wfProgram(prog)
+//@   ensures result != nil
+//@   modifies contents(env.store)
+
+//@ func (e *Evaluator) evalIfStmt
+//@   requires node != nil && WFNode(iface(node)) && env != nil
+//@   use wfIfStmt(node)
+//@   ensures result != nil
+//@   modifies contents(env.store)
+
+//@ func (e *Evaluator) evalBlockStmt
+//@   requires block != nil && WFNode(iface(block)) && env != nil
+//@   use wfBlockStmt(block)
+//@   ensures result != nil
+//@   modifies contents(env.store)
+
+//@ func (e *Evaluator) evalAssignStmt
+//@   requires node != nil && WFNode(iface(node)) && env != nil
+//@   use wfAssignStmt(node)
+//@   ensures result != nil
+//@   modifies contents(env.store)
+
+//@ func (e *Evaluator) evalUseStmt
+//@   requires node != nil && WFNode(iface(node)) && env != nil
+//@   use wfUseStmt(node)
+//@   ensures result != nil
+//@   modifies contents(env.store)
+
+//@ func (e *Evaluator) evalReserveStmt
+//@   requires node != nil && WFNode(iface(node)) && env != nil
+//@   use wfReserveStmt(node)
+//@   use wfInsertStmt(node.Insert)
+//@   ensures result != nil
+//@   modifies contents(env.store)
+
+//@ func (e *Evaluator) evalComponentStmt
+//@   requires node != nil && WFNode(iface(node)) && env != nil
+//@   use wfComponentStmt(node)
+//@   use wfObjectLiteral(node.Argument)
+//@   ensures result != nil
+//@   modifies contents(env.store)
+
+//@ func (e *Evaluator) evalForStmt
+//@   requires node != nil && WFNode(iface(node)) && env != nil
+//@   use wfForStmt(node)
+//@   ensures result != nil
+//@   loop 0: invariant newEnv != nil && fresh(newEnv)
+//@   modifies contents(env.store)
+
+//@ func (e *Evaluator) evalEachStmt
+//@   requires node != nil && WFNode(iface(node)) && env != nil
+//@   use wfEachStmt(node)
+//@   ensures result != nil
+//@   modifies contents(env.store)
+
+//@ func (e *Evaluator) evalBreakIfStmt
+//@   requires node != nil && WFNode(iface(node)) && env != nil
+//@   use wfBreakIfStmt(node)
+//@   ensures result != nil
+//@   modifies contents(env.store)
+
+//@ func (e *Evaluator) evalContinueIfStmt
+//@   requires node != nil && WFNode(iface(node)) && env != nil
+//@   use wfContinueIfStmt(node)
+//@   ensures result != nil
+//@   modifies contents(env.store)
+
+//@ func (e *Evaluator) evalSlotStmt
+//@   requires node != nil && WFNode(iface(node)) && env != nil
+//@   use wfSlotStmt(node)
+//@   ensures result != nil
+//@   modifies contents(env.store)
+
+//@ func (e *Evaluator) evalDumpStmt
+//@   requires node != nil && WFNode(iface(node)) && env != nil
+//@   use wfDumpStmt(node)
+//@   ensures result != nil
+//@   modifies contents(env.store)
+
+//@ func (e *Evaluator) evalIdentifier
+//@   requires node != nil && env != nil
+//@   ensures result != nil
+//@   modifies contents(env.store)
+
+//@ func (e *Evaluator) evalIndexExp
+//@   requires node != nil && WFNode(iface(node)) && env != nil
+//@   use wfIndexExp(node)
+//@   ensures result != nil
+//@   modifies contents(env.store)
+
+//@ func (e *Evaluator) evalDotExp
+//@   requires node != nil && WFNode(iface(node)) && env != nil
+//@   use wfDotExp(node)
+//@   ensures result != nil
+//@   modifies contents(env.store)
+
+//@ func (e *Evaluator) evalString
+//@   requires node != nil
+//@   ensures result != nil
+//@   modifies nothing
+
+//@ func (e *Evaluator) evalPrefixExp
+//@   requires node != nil && WFNode(iface(node)) && env != nil
+//@   use wfPrefixExp(node)
+//@   ensures result != nil
+//@   modifies contents(env.store)
+
+//@ func (e *Evaluator) evalTernaryExp
+//@   requires node != nil && WFNode(iface(node)) && env != nil
+//@   use wfTernaryExp(node)
+//@   ensures result != nil
+//@   modifies contents(env.store)
+
+//@ func (e *Evaluator) evalArrayLiteral
+//@   requires node != nil && WFNode(iface(node)) && env != nil
+//@   use wfArrayLiteral(node)
+//@   ensures result != nil
+//@   modifies contents(env.store)
+
+//@ func (e *Evaluator) evalObjectLiteral
+//@   requires node != nil && WFNode(iface(node)) && env != nil
+//@   use wfObjectLiteral(node)
+//@   ensures result != nil
+//@   modifies contents(env.store)
+
+//@ func (e *Evaluator) evalPostfixExp
+//@   requires node != nil && WFNode(iface(node)) && env != nil
+//@   use wfPostfixExp(node)
+//@   ensures result != nil
+//@   modifies contents(env.store)
+
+//@ func (e *Evaluator) evalCallExp
+//@   requires node != nil && WFNode(iface(node)) && env != nil
+//@   use wfCallExp(node)
+//@   ensures result != nil
+//@   modifies contents(env.store)
+
+//@ func (e *Evaluator) evalExpressions
+//@   requires env != nil && forall(k, 0, len(exps), WFN(exps[k]))
+//@   ensures len(result) == 1 && istype(result[0], *object.Error) || len(result) == len(exps)
+//@   modifies contents(env.store)
+//@   loop 0: invariant len(result) == rangeindex + 1 && rangeindex + 1 <= len(exps)
+
+//@ func (e *Evaluator) evalInfixExp
+//@   requires WFN(left) && WFN(right) && env != nil
+//@   ensures result != nil
+//@   modifies contents(env.store)
+
+//@ func (e *Evaluator) objectsToNativeType
+//@   modifies nothing
+
+//@ func (e *Evaluator) evalArrayIndexExp
+//@   requires arr != nil && idx != nil && istype(arr, *object.Array) && istype(idx, *object.Int)
+//@   ensures result != nil
+//@   modifies nothing
+
+//@ func (e *Evaluator) evalObjectIndexExp
+//@   requires obj != nil && istype(obj, *object.Obj) && node != nil
+//@   ensures result != nil
+//@   modifies nothing
+
+//@ func (e *Evaluator) evalPostfixOperatorExp
+//@   requires left != nil && node != nil
+//@   ensures result != nil
+//@   modifies nothing
+
+//@ func (e *Evaluator) evalInfixOperatorExp
+//@   requires left != nil && right != nil && leftNode != nil
+//@   ensures result != nil
+//@   modifies nothing
+
+//@ func (e *Evaluator) evalIntegerInfixExp
+//@   requires istype(left, *object.Int) && istype(right, *object.Int) && leftNode != nil
+//@   ensures result != nil
+//@   modifies nothing
+
+//@ func (e *Evaluator) evalStringInfixExp
+//@   requires istype(left, *object.Str) && istype(right, *object.Str) && leftNode != nil
+//@   ensures result != nil
+//@   modifies nothing
+
+//@ func (e *Evaluator) evalFloatInfixExp
+//@   requires istype(left, *object.Float) && istype(right, *object.Float) && leftNode != nil
+//@   ensures result != nil
+//@   modifies nothing
+
+//@ func (e *Evaluator) evalMinusPrefixOperatorExp
+//@   requires right != nil && node != nil
+//@   ensures result != nil
+//@   modifies nothing
+
+//@ func (e *Evaluator) evalBangOperatorExp
+//@   requires right != nil && node != nil
+//@   ensures result != nil
+//@   modifies nothing
